@@ -89,6 +89,9 @@ def s_scenarios():
         if name == "deliver-in-expunge":
             pre = sel + [{"s": "A", "op": "store", "set": "2", "mode": "+", "flags": "\\Deleted"}, {"s": "B", "op": "noop"}]
         out.append(dict(base, name=name, prelude=pre, concurrent={"A": [dict(a, s="A")], "B": [{"s": "B", "op": "noop"}]}))
+    # the announcement of a delivery is being pushed to an idling session that reads slowly while another session selects the mailbox
+    out.append(dict(base, name="deliver-noop|select, idling slow reader", prelude=sel + [{"s": "B", "op": "idle"}], slow=["B"],
+                    concurrent={"A": [{"s": "A", "op": "noop"}], "C": [{"s": "C", "op": "select", "m": "INBOX"}]}))
     # a delivery into the *destination* (which nobody has selected) while COPY / MOVE write into it
     env_o = [{"s": "env", "op": "deliver", "m": "other", "unseen": True, "cids": ["dE2"]}]
     for name, a in [("deliver-into-dst-in-copy", {"op": "copy", "set": "1:2", "dst": "other"}),
